@@ -2434,11 +2434,10 @@ impl<'a> Socket<'a> {
     /// <https://elixir.bootlin.com/linux/v6.9.9/source/net/ipv4/tcp.c#L1472>.
     fn window_to_update(&self) -> bool {
         match self.state {
-            State::SynSent
-            | State::SynReceived
-            | State::Established
-            | State::FinWait1
-            | State::FinWait2 => {
+            // The window field of a SYN is unscaled and cannot announce more than
+            // it already did, so there is nothing to update before the handshake is over.
+            State::SynSent | State::SynReceived => false,
+            State::Established | State::FinWait1 | State::FinWait2 => {
                 let new_win = self.scaled_window();
                 if let Some(last_win) = self.last_scaled_window() {
                     new_win > 0 && new_win / 2 >= last_win
@@ -2817,7 +2816,14 @@ impl<'a> Socket<'a> {
             .remote_last_seq
             .max(repr.seq_number + repr.segment_len());
         self.remote_last_ack = repr.ack_number;
-        self.remote_last_win = repr.window_len;
+        // `remote_last_win` is kept in scaled units, but the window field of a SYN is not
+        // scaled: convert it, or the window we believe we advertised would be larger than
+        // the one the peer saw (and than the receive buffer).
+        self.remote_last_win = if repr.control == TcpControl::Syn {
+            repr.window_len >> self.remote_win_shift
+        } else {
+            repr.window_len
+        };
 
         if repr.segment_len() > 0 {
             self.rtte
